@@ -100,8 +100,13 @@ def strategy(tier):
             pts.append({"X": X, "Y": [draw(dyadic()) for _ in range(m)]})
         upts = []
         for _ in range(draw(st.integers(1, 2))):
-            upts.append({"x": [draw(dyadic(-10, 10)) for _ in range(n)], "y": [draw(dyadic(-10, 10)) for _ in range(m)],
-                         "d": [draw(dyadic(-10, 10)) for _ in range(n + ns)]})
+            u = {"x": [draw(dyadic(-10, 10)) for _ in range(n)], "y": [draw(dyadic(-10, 10)) for _ in range(m)],
+                 "d": [draw(dyadic(-10, 10)) for _ in range(n + ns)]}
+            if draw(st.integers(0, 3)) == 0:
+                # a start point given with an integer dtype (x0 = np.array([1, 2]) or a plain int)
+                u["x"] = [float(draw(st.integers(-3, 3))) for _ in range(n)]
+                u["x_dtype"] = "int"
+            upts.append(u)
         return {"spec": spec, "scaling": scaling, "points": pts, "upoints": upts}
 
     return _s()
@@ -205,6 +210,16 @@ def check(case):
             it = tr.create_transformed_iterate(x.copy(), y.copy())
             if not (_eq(it.x, Xe) and _eq(it.y, Ye)):
                 return bad("transformed-iterate", f"create_transformed_iterate gives {it.x.tolist()},{it.y.tolist()} expected {Xe.tolist()},{Ye.tolist()}")
+            if U.get("x_dtype") == "int":
+                xi = np.array(U["x"], dtype=np.int64)
+                it2 = tr.create_transformed_iterate(xi, y.copy())
+                sub += 1
+                if not (_eq(it2.x, Xe) and _eq(it2.y, Ye)):
+                    return bad("transformed-iterate-int-start", f"integer-typed x0 {xi.tolist()}: create_transformed_iterate gives {it2.x.tolist()} expected {Xe.tolist()} (start slacks = projection of scaled c(x0))")
+                if len(set(U["x"])) == 1:
+                    it3 = tr.create_transformed_iterate(int(U["x"][0]), y.copy())
+                    if not (_eq(it3.x, Xe) and _eq(it3.y, Ye)):
+                        return bad("transformed-iterate-int-start", f"scalar int x0 {int(U['x'][0])}: create_transformed_iterate gives {it3.x.tolist()} expected {Xe.tolist()}")
     nonzero_w = bool(np.any(vw != 0) or np.any(cw != 0) or ow != 0)
     composed = ri.ns > 0 or bool(np.any(ri.offset != 0))
     if ri.ns:
